@@ -68,6 +68,26 @@ def run(prog, chk):
         raise AnalysisBroken("splitCommandLine not found")
     report_cursor(chk, "C20.b", "C20.b", sp[0], CursorAnalysis(sp[0], ["p"], {}, None), "splitCommandLine", progress=True)
     option_value_table(prog, chk)
+    # ------------------------------------------------------------------ g: OS status codes are not returned as bool
+    chk.rule("C20.g", "AST: no bool-returning function of Process.cpp returns the int status of a C library call through an implicit int->bool "
+                      "conversion (0 = success would read as false)", floor=1)
+    nret = 0
+    for f in prog.functions.values():
+        if not f.file.endswith("Process.cpp") or f.d["ret"] != "bool":
+            continue
+        for i, n in enumerate(f.nodes):
+            if n["k"] != "ReturnStmt" or not n["c"]:
+                continue
+            nret += 1
+            x, conv = n["c"][0], False
+            while x >= 0 and f.nodes[x]["k"] in ("ImplicitCastExpr", "ParenExpr", "ExprWithCleanups"):
+                if f.nodes[x].get("ck") == "IntegralToBoolean":
+                    conv = True
+                x = f.nodes[x]["c"][0] if f.nodes[x]["c"] else -1
+            if conv and x >= 0 and f.nodes[x]["k"] == "CallExpr" and "::" not in f.nodes[x].get("callee", "::"):
+                chk.bad("C20.g", f, "status-code-returned-as-bool:" + f.nodes[x].get("callee", "?"), f.where(i),
+                        "`%s` converts the int status of %s() to bool: success (0) is reported as false and failure (-1) as true" % (f.r(i)[:60], f.nodes[x].get("callee")))
+    chk.ok("C20.g", "Process.cpp", "%d return statements of bool functions inspected" % nret, "", "no implicit int->bool conversion of a C library status", evals=max(1, nret))
     # ------------------------------------------------------------------ c
     loops = [b for b in rd.blocks.values() if b.get("cond") is not None and fin.key(rd, b["cond"]) == "(opt < this->optionsEnd)"]
     inits = [n for n in rd.nodes if n["k"] == "DeclStmt" and any(d["n"] == "opt" and "init" in d and q.no_casts(rd.r(d["init"])) == "this->options" for d in n["decls"])]
